@@ -38,7 +38,15 @@ class P:
         viol, stats = [], []
         for w, d in runs:
             env = dict(vf.GOENV, GORACE="halt_on_error=1 exitcode=66")
-            pr = subprocess.run([os.path.join(vf.HARNESS, "bin", "race"), "-d", d, "-w", str(w)], env=env, stdout=subprocess.PIPE, stderr=subprocess.PIPE, text=True, timeout=600)
+            secs = int(d.rstrip("s"))
+            try:
+                pr = subprocess.run([os.path.join(vf.HARNESS, "bin", "race"), "-d", d, "-w", str(w)], env=env, stdout=subprocess.PIPE, stderr=subprocess.PIPE, text=True, timeout=secs + 90)
+            except subprocess.TimeoutExpired as te:
+                viol.append({"cases": [], "verdict": "the concurrent decode / Dump / Get stress of the real template cache did not terminate (%d s after its %s of work): "
+                             "some cache operation never returns (a lock acquired twice by one goroutine, or never released)" % (90, d),
+                             "replay_cmd": "cd harness && go build -race -tags verif -o bin/race ./cmd/race && timeout %d ./bin/race -d %s -w %d" % (secs + 90, d, w),
+                             "stderr_tail": ((te.stderr or b"")[-800:].decode("latin1") if isinstance(te.stderr, bytes) else str(te.stderr)[-800:])})
+                break
             m = re.search(r"RACE-STRESS ok ops=(\d+) gets=(\d+) dumps=(\d+)", pr.stdout)
             if pr.returncode != 0 or not m:
                 what = "DATA RACE" if "DATA RACE" in pr.stderr else ("fatal error / panic" if ("fatal error" in pr.stderr or "panic" in pr.stderr) else "unsound observation")
